@@ -228,6 +228,15 @@ func TestVerifBoundedSQLText(t *testing.T) {
 		{"result alias", func(v string) (string, map[string]any) {
 			return "match (n) return n.name as " + cyBacktick(v), nil
 		}, "ident"},
+		{"result alias used in order by", func(v string) (string, map[string]any) {
+			return "match (n) return n.name as " + cyBacktick(v) + " order by " + cyBacktick(v), nil
+		}, "free"},
+		{"aggregate alias used in order by", func(v string) (string, map[string]any) {
+			return "match (n)-[]->(m) with n, count(m) as " + cyBacktick(v) + " return n, " + cyBacktick(v) + " order by " + cyBacktick(v) + " desc limit 5", nil
+		}, "free"},
+		{"count alias of the aggregate traversal shape", func(v string) (string, map[string]any) {
+			return "match (n:NodeKind1) match (n)-[:EdgeKind1*1..]->(m:NodeKind2) with n, count(m) as " + cyBacktick(v) + " return n, " + cyBacktick(v) + " order by " + cyBacktick(v) + " desc limit 5", nil
+		}, "free"},
 		{"variable name", func(v string) (string, map[string]any) {
 			return "match (" + cyBacktick(v) + ") return " + cyBacktick(v), nil
 		}, "free"},
